@@ -58,7 +58,7 @@ func TestVerifEpisodes(t *testing.T) {
 		for _, e := range res.Events {
 			enc.Encode(e)
 		}
-		enc.Encode(map[string]any{"ev": "end", "ep": p.ID, "result": res.Result, "steps": res.Steps, "choices": res.Choices, "us": time.Since(t0).Microseconds()})
+		enc.Encode(map[string]any{"ev": "end", "ep": p.ID, "result": res.Result, "steps": res.Steps, "choices": res.Choices, "diverged": res.Diverged, "us": time.Since(t0).Microseconds()})
 		w.Flush()
 		if journal != nil {
 			fmt.Fprintf(journal, "done %s\n", p.ID)
